@@ -1,9 +1,12 @@
 (* C08 — buffered (Full) masters are exactly the flat stream rolled up.  Statements only.
-   PARTIAL: the algebraic core is proved (rolling up a well-nested item sequence and unrolling it again is the identity, for
-   every nesting including masters inside masters of the same id — the D17 defect); that the buffered run of the iterator
-   collects exactly the items the unbuffered run emits between a master's Start and End (a simulation between two runs of
-   different granularity) is covered by the correspondence groups over buffered sets, not proved. *)
-From Ebml Require Import Base Tools Spec Reader Pure Proofs.Tactics Proofs.RollUp.
+   The algebraic core (rolling up a well-nested item sequence and unrolling it again is the identity, for every nesting
+   including masters inside masters of the same id — the D17 defect) and the run-level simulation are proved: when the run
+   with a buffered set completes without an error outcome, unrolling every Full item recursively gives exactly the tag
+   sequence of the run of the same reader with nothing buffered (buffered masters nested in each other included).
+   The run with nothing buffered yields more items, so it alone can be cut by the per-run item limit (4 * input length + 64);
+   the statement therefore comes in three forms: up to that cut, under "the unbuffered run is not cut", and under "the
+   unrolled sequence is shorter than the limit".  C08_limit_ex shows the side condition is needed. *)
+From Ebml Require Import Base Tools Spec Reader Pure Proofs.Tactics Proofs.RollUp Proofs.Nesting Proofs.BufferSim.
 
 (* the Full item a buffered master becomes unrolls to its Start, the flattening of the items queued for it, and its End *)
 Theorem C08_unroll_rollup_partial : forall tid children, Bal children ->
@@ -24,3 +27,106 @@ Example C08_ex :
   roll_up_children 16643 [TStart 17153; TStart 17153; TElem 236 (VB [1]); TEnd 17153; TElem 236 (VB [2]); TEnd 17153; TElem 16642 (VB [])] =
   TFull 16643 [TFull 17153 [TFull 17153 [TElem 236 (VB [1])]; TElem 236 (VB [2])]; TElem 16642 (VB [])].
 Proof. vm_compute. reflexivity. Qed.
+
+(* ------------------------------------------------------------------ the run-level simulation *)
+(* [unbuffered c]: the configuration c with an empty buffered set.
+   One buffered read_next step = one or more unbuffered steps, queuing the same tags once Full items are unrolled *)
+Theorem C08_step_simulation : forall c fuel sb,
+  b_bad (p_read_next fuel c sb) = None ->
+  exists new_b, b_queue (p_read_next fuel c sb) = b_queue sb ++ new_b /\
+    (okq new_b ->
+       exists n new_u, (forall Q l, usteps (S n) c (recore sb Q l) = recore (p_read_next fuel c sb) (Q ++ new_u) l) /\
+                       Unr new_b new_u).
+Proof.
+  intros c fuel sb Hb. destruct (rn_bm_sim c fuel) as [H _]. destruct (H sb Hb) as [_ [new_b [Hq Hs]]].
+  exists new_b. split; [exact Hq|]. intros Ho. destruct (Hs Ho) as [_ Hr]. exact Hr.
+Qed.
+
+(* [Unr b u] (items with offsets): u is b with every top-level Full item replaced by Start, unrolled children, End; on tags
+   this is [flat] *)
+Theorem C08_unr_is_flat : forall b u, Unr b u -> qtags u = flat (qtags b).
+Proof. intros b u H. apply (Unr_tags b u H). Qed.
+
+(* whole runs: the buffered run has no error / panic / budget / limit outcome *)
+Theorem C08_buffered_run_unrolls : forall c input,
+  let outs := p_run c input [RAll] in
+  (forall o, In o outs -> match o with OItem _ _ | ONone => True | _ => False end) ->
+  ~ In OLimit (p_run (unbuffered c) input [RAll]) ->
+  flat (out_tags outs) = out_tags (p_run (unbuffered c) input [RAll]).
+Proof. exact buffered_run_unrolls. Qed.
+
+Theorem C08_buffered_run_unrolls_short : forall c input,
+  let outs := p_run c input [RAll] in
+  (forall o, In o outs -> match o with OItem _ _ | ONone => True | _ => False end) ->
+  (length (flat (out_tags outs)) < 4 * length input + 64)%nat ->
+  flat (out_tags outs) = out_tags (p_run (unbuffered c) input [RAll]).
+Proof. exact buffered_run_unrolls_short. Qed.
+
+(* without a side condition: the unbuffered run yields a prefix, and all of it unless it stops at its item limit *)
+Theorem C08_buffered_run_unrolls_upto_limit : forall c input,
+  let outs := p_run c input [RAll] in
+  (forall o, In o outs -> match o with OItem _ _ | ONone => True | _ => False end) ->
+  exists rest, flat (out_tags outs) = out_tags (p_run (unbuffered c) input [RAll]) ++ rest /\
+               (~ In OLimit (p_run (unbuffered c) input [RAll]) -> rest = []).
+Proof. exact buffered_run_unrolls_upto_limit. Qed.
+
+(* with offsets: a Full item stands for the Start and the End of its master, both reported at the offset of the Full item (the
+   offset of the master's Start); every other top-level item is reported with the same offset in both runs *)
+Theorem C08_buffered_run_unrolls_items : forall c input,
+  let outs := p_run c input [RAll] in
+  (forall o, In o outs -> match o with OItem _ _ | ONone => True | _ => False end) ->
+  ~ In OLimit (p_run (unbuffered c) input [RAll]) ->
+  Unr (out_items outs) (out_items (p_run (unbuffered c) input [RAll])).
+Proof. exact buffered_run_unrolls_items. Qed.
+
+Theorem C08_buffered_run_unrolls_items_short : forall c input,
+  let outs := p_run c input [RAll] in
+  (forall o, In o outs -> match o with OItem _ _ | ONone => True | _ => False end) ->
+  (length (flat (out_tags outs)) < 4 * length input + 64)%nat ->
+  Unr (out_items outs) (out_items (p_run (unbuffered c) input [RAll])).
+Proof. exact buffered_run_unrolls_items_short. Qed.
+
+Theorem C08_buffered_run_unrolls_items_upto_limit : forall c input,
+  let outs := p_run c input [RAll] in
+  (forall o, In o outs -> match o with OItem _ _ | ONone => True | _ => False end) ->
+  exists T rest, Unr (out_items outs) T /\ T = out_items (p_run (unbuffered c) input [RAll]) ++ rest /\
+                 (~ In OLimit (p_run (unbuffered c) input [RAll]) -> rest = []).
+Proof. exact buffered_run_unrolls_items_upto_limit. Qed.
+
+(* Root{ A{ B{ x = -200 } y = 7 } } with A and B buffered, B nested in A *)
+Example C08_run_ex :
+  let sp := [ {| e_id := 129; e_ty := DMaster; e_path := [] |}; {| e_id := 16643; e_ty := DMaster; e_path := [PId 129] |};
+              {| e_id := 16645; e_ty := DMaster; e_path := [PId 129; PId 16643] |};
+              {| e_id := 16641; e_ty := DSInt; e_path := [PId 129; PId 16643; PId 16645] |};
+              {| e_id := 16642; e_ty := DUInt; e_path := [PId 129; PId 16643] |} ] in
+  let c := {| c_sp := sp; c_allow_id := false; c_allow_hier := false; c_allow_over := false; c_max := Some 4000000000;
+              c_buffered := [16643; 16645]; c_emit_eof := true |} in
+  let input := [129; 143; 65; 3; 140; 65; 5; 133; 65; 1; 130; 255; 56; 65; 2; 129; 7] in
+  p_run c input [RAll] =
+    [OItem (TStart 129) 0; OItem (TFull 16643 [TFull 16645 [TElem 16641 (VI (-200))]; TElem 16642 (VU 7)]) 2;
+     OItem (TEnd 129) 0; ONone] /\
+  p_run (unbuffered c) input [RAll] =
+    [OItem (TStart 129) 0; OItem (TStart 16643) 2; OItem (TStart 16645) 5; OItem (TElem 16641 (VI (-200))) 8;
+     OItem (TEnd 16645) 5; OItem (TElem 16642 (VU 7)) 13; OItem (TEnd 16643) 2; OItem (TEnd 129) 0; ONone] /\
+  flat (out_tags (p_run c input [RAll])) = out_tags (p_run (unbuffered c) input [RAll]).
+Proof. vm_compute. repeat split; reflexivity. Qed.
+
+(* the side condition is needed: a specification whose element path names 88 ancestors makes the reader close 88 implied
+   masters at the end of a 7-byte input; with two buffered (empty) masters the buffered run needs 92 calls of next() (the
+   limit), the unbuffered one 94: it is cut after 92 items while the buffered run completes with None *)
+Example C08_limit_ex :
+  let chain k := map (fun i => 1000 + N.of_nat i) (seq 0 k) in
+  let sp := map (fun i => {| e_id := 1000 + N.of_nat i; e_ty := DMaster; e_path := map PId (chain i) |}) (seq 0 88) ++
+            [ {| e_id := 129; e_ty := DMaster; e_path := [PGlobal None None] |};
+              {| e_id := 130; e_ty := DUInt; e_path := map PId (chain 88%nat) |} ] in
+  let c := {| c_sp := sp; c_allow_id := false; c_allow_hier := false; c_allow_over := false; c_max := None;
+              c_buffered := [129]; c_emit_eof := true |} in
+  let input := [129; 128; 129; 128; 130; 129; 7] in
+  (forall o, In o (p_run c input [RAll]) -> match o with OItem _ _ | ONone => True | _ => False end) /\
+  last (p_run (unbuffered c) input [RAll]) ONone = OLimit /\
+  length (flat (out_tags (p_run c input [RAll]))) = 93%nat /\
+  length (out_tags (p_run (unbuffered c) input [RAll])) = 92%nat.
+Proof.
+  cbv zeta. split; [|vm_compute; repeat split; reflexivity].
+  apply Forall_forall. vm_compute. repeat constructor.
+Qed.
